@@ -2989,6 +2989,7 @@ def mutants(corpus: Corpus):
         add("c17-gfm-closing-form-dropped", "C17.R2", splice(src, pat, pat_src.replace("(\\/?)", "()")), "closing form")
         add("c17-gfm-lookahead-narrowed", "C17.R2", splice(src, pat, pat_src.replace("\\t\\n\\f\\r ", " ")), "terminator")
         add("c17-gfm-slash-only-before-gt", "C17.R2", splice(src, pat, pat_src.replace(" />])", " >]|/>)")), "terminator", note="seed class: '/' accepted only as '/>'")
+        add("c17-gfm-lookahead-space-or-gt", "C17.R2", splice(src, pat, pat_src.replace("(?=[\\t\\n\\f\\r />])", "(?=\\s|>)")), "terminator", note="seed class: '/' no longer ends the tag name (`<script/src=x>`)")
         add("c17-gfm-lookahead-dropped", "C17.R2", splice(src, pat, pat_src[: pat_src.index("(?=")] + pat_src[-1]), "terminator")
         if len(flt.compile_call.args) > 1:
             add("c17-gfm-case-sensitive", "C17.R2", splice(src, flt.compile_call, f"re.compile({pat_src})"), "case-insensitive")
